@@ -7,7 +7,7 @@ Case lines (shared with harness/c09/c09.c):
   script <oid> <kind> <ops>      oid: u<k> | o<k> | k<k> (k-th connect attempt: ops = err | rej)
                                  kind: logon | input | cmd:<verb> | netdead | hb | co:<tag> | reset | connect
   vapply o<k> do_ops <ops>       ops at set-up time
-  step <action>...               tick[:<dt>] conn:c<k> send:c<k>:<text> close:c<k> cin:<text> idle
+  step <action>...               tick[:<dt>] conn:c<k> send:c<k>:<text> close:c<k> reset:c<k> cin:<text> idle
   run
 ops (';' separated): ok | err | cerr | dest:<oid|me> | co:<delay>:<tag> | hb:<n> | w:<text> | meh:<mode>
 -/
@@ -68,6 +68,7 @@ def parseAction (s : String) : Option Action :=
   | ["conn", c] => (parseClient c).map Action.conn
   | ["send", c, t] => (parseClient c).map (fun c => Action.send c t)
   | ["close", c] => (parseClient c).map Action.close
+  | ["reset", c] => (parseClient c).map Action.reset
   | ["cin", t] => some (.cin t)
   | ["idle"] => some .idle
   | _ => none
@@ -92,6 +93,7 @@ def noteAction (x : Expect) : Action → Expect
   | .send c t => { x with sends := x.sends ++ [(c, t)] }
   | .cin t => { x with sends := x.sends ++ [(0, t)] }
   | .close c => { x with closed := c :: x.closed }
+  | .reset c => { x with closed := c :: x.closed }
   | _ => x
 
 def parseLine (p : Parsed) (line : String) : Parsed :=
